@@ -419,6 +419,42 @@ theorem iter_list_tie {E Es X : Type} (env : Env E Es Pend) (rt : Str) (cd : Opt
       · rw [h6]; simp
       · simp [outOfAct, codeOfGen, h7]
 
+/-! ## `dump(path)` (the API) -/
+
+/-- `Multipart::default()` / `Multipart::root(path)` in the model's terms: the walk as the list of leaf paths below a node -/
+def denvOf {σ : Type} (ops : SettingsOps σ) : DEnv Pending :=
+  { dflt := { remaining := (ops.leavesBelow []).getD [], respTopic := none, cd := none },
+    root := fun m p => match ops.leavesBelow p with
+      | some ls => .ok { m with remaining := ls }
+      | none => .error () }
+
+/-- **`MqttClient::dump` as translated is the model's `apiDump`** (on which `api_dump_busy` and the second entry point of
+`dump_entry_points` are proved): an invalid path is refused before the state machine is asked; a busy or not yet
+initialised client refuses and leaves the pending request untouched; otherwise the walk is rooted at the path, with no
+response topic and no correlation data; nothing is sent, no panic. -/
+theorem dump_tie {σ E Es X : Type} (ops : SettingsOps σ) (env : Env E Es Pending) (c : Client) (path : Option Str)
+    (acts : List (Act E Es)) (log : List String) (ext : X) (hroot : (ops.leavesBelow []).isSome) :
+    ∃ cl r, dump env (denvOf ops) { st := stToGen c.st, pending := c.pending, acts := acts, log := log, ext := ext } path
+        = .val (cl, r) ∧
+      (apiDump ops c path).1.st = stOfGen cl.st ∧ (apiDump ops c path).1.pending = cl.pending ∧
+      (apiDump ops c path).2 = r.isOk ∧ cl.acts = acts ∧ cl.log = log ∧ cl.ext = ext := by
+  obtain ⟨ls0, h0⟩ := Option.isSome_iff_exists.mp hroot
+  obtain ⟨st, tmo, pend⟩ := c
+  cases path with
+  | none =>
+    cases st <;>
+      simp [dump, apiDump, denvOf, h0, processEvent, smStep, stToGen, stOfGen, Except.isOk, Except.toBool] <;>
+      exact ⟨_, _, ⟨rfl, rfl⟩, by simp⟩
+  | some p =>
+    cases hl : ops.leavesBelow p with
+    | none =>
+      simp [dump, apiDump, denvOf, hl, Except.isOk, Except.toBool]
+      exact ⟨_, _, ⟨rfl, rfl⟩, by simp [stOfGen_toGen]⟩
+    | some ls =>
+      cases st <;>
+        simp [dump, apiDump, denvOf, h0, hl, processEvent, smStep, stToGen, stOfGen, Except.isOk, Except.toBool] <;>
+        exact ⟨_, _, ⟨rfl, rfl⟩, by simp⟩
+
 /-! ## `iter_dump` -/
 
 /-- how the publication of leaf `p`'s value ends, as the environment of `iter_dump_body`: the model's `ops.get` says
